@@ -19,7 +19,7 @@ def lane(k):
         except queue.Empty: return
         env = dict(os.environ, VMON_TARGET=vt, SEED_SUITE_TARGET=st)
         with open("/tmp/evl/%s.log" % name, "w") as f:
-            subprocess.run(["python3", "/verif/seedtest.py", name, wt, prop] + extra, env=env, stdout=f, stderr=subprocess.STDOUT)
+            subprocess.run(["python3", os.environ.get("SEEDTEST", "/verif/seedtest.py"), name, wt, prop] + extra, env=env, stdout=f, stderr=subprocess.STDOUT)
         print("done", name, flush=True)
 base = int(os.environ.get("LANE_BASE", "0"))
 ts = [threading.Thread(target=lane, args=(base + k,)) for k in range(lanes)]
